@@ -265,6 +265,8 @@ func WithLayerDigestAlgo(algo digest.Algorithm) Opts {
 			}
 			if dl.mod == unchanged {
 				dl.mod = replaced
+			}
+			if dl.newDesc.MediaType == "" {
 				dl.newDesc = dl.desc
 			}
 			dl.newDesc.Digest = ""
